@@ -176,6 +176,19 @@ def run(tier):
             v.distinct((c["text"], text))
             if v.cov["evaluations"] % 40000 == 1:
                 v.sample({"original": c["text"], "rewritten": text, "rewriting": name, "opts": mask, "bytes": b1[1]})
+    # ... and in the other assembly modes / contexts: a sample of the rewritten spellings goes through chunk fitting (padded, encoded a
+    # second time), the counting entry point (chunk size >= 2 and < 2), and the contexts of enc.context_crossing (library buffer at a
+    # far offset, CRLF program, twice on one instance): the bytes must be those of the CANONICAL spelling alone
+    from .. import enc as _enc
+    accx, last_base = [], None
+    for (c, name, text, mask), r in zip(meta, res):
+        if name is None:
+            last_base = r
+        elif "crash" not in r and "crash" not in last_base and last_base["rc"] == 0 and r["rc"] == 0 and last_base["bytes"] and "\n" not in text.rstrip("\r\n") and ";" not in text:
+            accx.append(({"text": text.rstrip("\r\n"), "fam": "rewrite", "canonical": c["text"]}, mask, last_base["bytes"]))
+    accx = rnd.sample(accx, min(len(accx), 1500 if not full else 30000))
+    stats["rewritten_other_modes_ok"] = _enc.mode_crossing(v, binary, accx)
+    stats["rewritten_other_contexts_ok"] = _enc.context_crossing(v, binary, accx)
     # programs with comment / label / directive / blank lines inserted at every position
     rep = corpus.representative(rnd, 1, cap=120)
     alone = corpus.accepted_alone(binary, sorted(set(c["text"] for c in rep)))
